@@ -158,10 +158,12 @@ func (t *Topic) DeleteExistingChannel(channelName string) error {
 	// to enforce ordering
 	channel.Delete()
 
+	verifPoint("delete-channel:before-remove")
 	t.Lock()
 	delete(t.channelMap, channelName)
 	numChannels := len(t.channelMap)
 	t.Unlock()
+	verifPoint("delete-channel:after-remove")
 
 	// update messagePump state
 	select {
